@@ -126,7 +126,7 @@ func accBytes(bech string) []byte {
 type rawKV struct{ k, v []byte }
 
 func rawStore(ctx sdk.Context, a *app.NibiruApp, name string) []rawKV {
-	it := ctx.KVStore(a.GetKey(name)).Iterator(nil, nil)
+	it := ctx.KVStore(a.UnsafeFindStoreKey(name)).Iterator(nil, nil)
 	defer it.Close()
 	var out []rawKV
 	for ; it.Valid(); it.Next() {
@@ -642,7 +642,7 @@ func runQueries(ctx sdk.Context, a *app.NibiruApp, r *reg, q queryPlan) J {
 	return out
 }
 
-var erc20ABI = embeds.SmartContract_ERC20Minter.ABI
+var erc20ABI = embeds.SmartContract_ERC20MinterWithMetadataUpdates.ABI
 var _ = authtypes.ModuleName
 
 func rangeU64() collections.Range[uint64] { return collections.Range[uint64]{} }
